@@ -89,7 +89,12 @@ pub fn gen_query(rng: &mut Rng) -> Value {
       "functions": [{"type": "field_value_factor", "field": "s0", "factor": 1.0}], "boost_mode": "replace"}),
     3 => json!({"type": "match_all"}),
     4 | 5 => json!({"type": "term", "field": "body", "value": WORDS[skew(rng, 4)]}),
-    6 => json!({"type": "query_string", "query": format!("{} {}", WORDS[skew(rng, 4)], WORDS[rng.below(WORDS.len())])}),
+    6 => {
+      // two *different* words (a repeated word trips a debug assertion in the planner — C16's business)
+      let a = skew(rng, 4);
+      let b = (a + 1 + rng.below(WORDS.len() - 1)) % WORDS.len();
+      json!({"type": "query_string", "query": format!("{} {}", WORDS[a], WORDS[b])})
+    }
     _ => json!({"type": "function_score", "query": {"type": "term", "field": "body", "value": WORDS[skew(rng, 3)]},
       "functions": [{"type": "field_value_factor", "field": "s0", "factor": 1.0}], "boost_mode": "sum"}),
   }
@@ -118,6 +123,16 @@ pub fn gen_sort(rng: &mut Rng) -> Value {
 
 pub fn gen_exec(rng: &mut Rng) -> &'static str {
   *rng.pick(&["bm25", "wand", "wand", "bmw"])
+}
+
+/// WAND/BMW prune with BM25 upper bounds although a `function_score` over a term query changes
+/// the score afterwards (pruned top-k differs from exhaustive top-k: property C09, not ours):
+/// such queries are run exhaustively here so that the ranking fed to post-processing is the
+/// real one
+pub fn settle_exec(query: &Value, req: &mut Value) {
+  if query["type"] == "function_score" && query["query"]["type"] != "match_all" {
+    req["execution"] = json!("bm25");
+  }
 }
 
 /// rescore queries: exact scores with `min_score`, filtered weights, BM25 terms
@@ -347,6 +362,7 @@ pub fn model_req(req: &Value, lay: &Layout, hits: Value, cursor: Option<(&str, f
     "return_hits": req["return_hits"].as_bool().unwrap_or(true),
     "explain": req["explain"].as_bool().unwrap_or(false),
     "profile": req["profile"].as_bool().unwrap_or(false),
+    "hook": has_hook(&req["query"]),
     "nseg": lay.nseg, "agg_field": 1,
   });
   if let Some((id, score, returned)) = cursor {
@@ -578,4 +594,26 @@ pub fn fetched_ids(full: &[Hit], lay: &Layout, req: &Value) -> BTreeSet<String> 
     out.extend(full.iter().take(k).map(|h| h.doc_id.clone()));
   }
   out
+}
+
+/// `needs_score_hook`: the query has custom scoring
+pub fn has_hook(query: &Value) -> bool {
+  matches!(query["type"].as_str(), Some("function_score") | Some("constant_score") | Some("rank_feature") | Some("script_score"))
+}
+
+/// are scores computed for this request (`ScoreMode::Score`)?  Otherwise every hit carries 0.
+pub fn scores_computed(req: &Value) -> bool {
+  plan_json(&req["sort"]).as_array().map(|a| a.iter().any(|p| p["f"] == "score")).unwrap_or(false) || has_hook(&req["query"]) || req["explain"].as_bool().unwrap_or(false)
+}
+
+/// the matching documents with their *true* scores for the model: the ranking request itself
+/// when it computes scores, else the same request with `explain` (which forces score computation)
+pub fn raw_scores(reader: &IndexReader, ranking: &Value, seen: &SearchResult) -> Result<Vec<(String, f32)>, String> {
+  if scores_computed(ranking) {
+    return Ok(seen.hits.iter().map(|h| (h.doc_id.clone(), h.score)).collect());
+  }
+  let mut r = ranking.clone();
+  r["explain"] = json!(true);
+  let res = run(reader, &r)?;
+  Ok(res.hits.iter().map(|h| (h.doc_id.clone(), h.score)).collect())
 }
